@@ -65,10 +65,9 @@ def run(tier, seed):
                            "what": m["fails"][0]["what"], "signature": "%s|%s|%s" % (b.get("kind"), m["fails"][0]["what"], b["calls"][0]["def"])})
     res.samples = [beh[len(beh) // 2], beh[len(beh) // 2 + 1]]
     # ---- the numeric base case: every invertible catalogue operator, as a validated assumption
-    try:
+    c01lib = None
+    if os.path.exists(os.path.join(vlib.VERIF, "bin", "c01lib.READY")):   # wired in once validated
         import c01lib
-    except ImportError:
-        c01lib = None
     if c01lib is not None:
         c01lib.roundtrip_cases(tier, seed, res)
         res.assumptions.append("per-operator numeric closure (catalogue lattice) is assumption validation with the statement's tolerances, "
